@@ -59,8 +59,12 @@ func (db *DB) getQueryable(table string, outFields func(tableFields core.Fields)
 	if t.Virtual {
 		return nil, fmt.Errorf("Table %v is virtual and cannot be queried", table)
 	}
-	until := encoding.RoundTimeUp(db.clock.Now(), t.Resolution)
-	asOf := encoding.RoundTimeUp(until.Add(-1*t.RetentionPeriod), t.Resolution)
+	now := db.clock.Now()
+	until := encoding.RoundTimeUp(now, t.Resolution)
+	// Note - asOf is derived from now rather than until, otherwise we lose the
+	// oldest period that's still wholly inside the retention period whenever
+	// the retention period is not a multiple of the resolution.
+	asOf := encoding.RoundTimeUp(now.Add(-1*t.RetentionPeriod), t.Resolution)
 	fields := t.getFields()
 	out, err := outFields(fields)
 	if err != nil {
